@@ -34,7 +34,12 @@ def scratch():
     global _scratch
     if _scratch is None:
         base = os.environ.get("XDEPS_SCRATCH") or ("/var/tmp" if os.path.isdir("/var/tmp") else tempfile.gettempdir())
-        _scratch = tempfile.mkdtemp(prefix="xdverif_", dir=base)
+        # scratch directories of runs that were killed (no atexit): their owner's pid is in the name
+        for d in os.listdir(base):
+            m = re.match(r"xdverif_p(\d+)_", d)
+            if m and not os.path.exists("/proc/%s" % m.group(1)):
+                shutil.rmtree(os.path.join(base, d), True)
+        _scratch = tempfile.mkdtemp(prefix="xdverif_p%d_" % os.getpid(), dir=base)
         atexit.register(shutil.rmtree, _scratch, True)
     return _scratch
 
